@@ -104,6 +104,21 @@ Definition str2_eqb (a b : string * string) := String.eqb (fst a) (fst b) && Str
 Definition recovers_covered : bool := list_eqb str2_eqb recovers recovers_expected.
 
 (** ------------------------------------------------------------------------------------ *)
+(** undo closures: [stateChanger.revert] holds the changer's non re-entrant lock while it runs the
+    [revert()] of every change, so a revert method may only call the NON-journaling setters; a call
+    of a journaling one ([SetCodeAndHash], [SetState], [SetBalance], [SetNonce], ...) appends to the
+    changer and deadlocks the executor goroutine (outcome [Hang] in [Model/Dispatch.v]).
+    [GetOrCreateAccount] journals only when the object is missing, which cannot be the case while a
+    younger change of that account is being undone. *)
+Definition revert_allowed : list string :=
+  ["DeleteAddress"; "DeleteSlot"; "len"; "delete"; "String"; "rmAccount"; "GetOrCreateAccount";
+   "setBalance"; "setNonce"; "setCodeAndHash"; "setState"].
+
+Definition reverts_covered : bool :=
+  forallb (fun r : string * list string => forallb (fun c => existsb (String.eqb c) revert_allowed) (snd r)) revert_calls &&
+  (N.of_nat (List.length revert_calls) =? 11).
+
+(** ------------------------------------------------------------------------------------ *)
 (** reflection: which Go parameter types can be produced by [parseArgs] *)
 
 Inductive pkind := KStr | KBytes | KU64 | KI32 | KI64 | KBool | KF64 | KIface | KOther.
